@@ -572,13 +572,19 @@ theorem lookup_imulT [Mul ν] (dflt : ν) (d : Nat) (a b : Tree κ ν (d + 1))
   | some x => cases lookup (present dflt d b) c <;> rfl
 
 /-- **In-place product = value-returning product (partial).** If every coordinate `a` presents
-    is also presented by `b`, `a *= b` leaves `a` with the dense view of `a * b` (any depth, any
+    is also presented by `b` (`hcovB`, executable), `a *= b` leaves `a` with the dense view of `a * b` (any depth, any
     default).  Without the hypothesis it does not: `today_fiber_imul_keeps_unmatched`. -/
 theorem fiber_imul_eq_mul_partial [Mul ν] (dflt : ν) (d : Nat) (a b : Tree κ ν (d + 1))
     (ha : WF (d + 1) a) (hb : WF (d + 1) b)
-    (hcov : ∀ c, (lookup (present dflt d a) c).isSome = true → (lookup (present dflt d b) c).isSome = true)
+    (hcovB : (present dflt d a).all (fun e => hasCoord (present dflt d b) e.1) = true)
     (p : List κ) :
     denseAt dflt (d + 1) (imulT dflt d a b) p = denseAt dflt (d + 1) (mulT dflt (d + 1) a b) p := by
+  have hcov : ∀ c, (lookup (present dflt d a) c).isSome = true →
+      (lookup (present dflt d b) c).isSome = true := by
+    intro c hc
+    obtain ⟨t, ht⟩ := Option.isSome_iff_exists.1 hc
+    have := List.all_eq_true.1 hcovB (c, t) (mem_of_lookup ht)
+    rwa [hasCoord_iff_lookup] at this
   cases p with
   | nil => rw [denseAt_nil, denseAt_nil]
   | cons c q =>
@@ -720,4 +726,153 @@ theorem fiber_scalar_imul_eq_mul_partial [Mul ν] (dflt s : ν) (f : Fib Int ν)
     exact Classical.not_not.1 h
 
 end
+/-! ### the executable specifications used by the driver are satisfied by the model -/
+
+section
+variable {κ ν : Type} [LT κ] [DecidableRel (α := κ) (· < ·)] [DecidableEq κ] [StrictTotal κ]
+variable [DecidableEq ν]
+
+/-- the executable pointwise check accepts the model's sum -/
+theorem fiber_add_specB_sound [Add ν] (dflt : ν) (d : Nat) (a b : Tree κ ν (d + 1))
+    (ha : WF (d + 1) a) (hb : WF (d + 1) b) :
+    pointwiseB dflt (d + 1) (addExpect dflt) a b (addT dflt (d + 1) a b) = true := by
+  unfold pointwiseB
+  exact List.all_eq_true.2 (fun p _ => decide_eq_true (fiber_add_spec dflt d a b ha hb p))
+
+/-- the executable pointwise check accepts the model's product -/
+theorem fiber_mul_specB_sound [Mul ν] (dflt : ν) (d : Nat) (a b : Tree κ ν (d + 1))
+    (ha : WF (d + 1) a) (hb : WF (d + 1) b) :
+    pointwiseB dflt (d + 1) (mulExpect dflt) a b (mulT dflt (d + 1) a b) = true := by
+  unfold pointwiseB
+  exact List.all_eq_true.2 (fun p _ => decide_eq_true (fiber_mul_spec dflt d a b ha hb p))
+
+/-- a point with a non-default dense value is one of the tree's content points -/
+theorem mem_points_of_dense_ne (dflt : ν) : ∀ (d : Nat) (t : Tree κ ν d) (p : List κ),
+    p.length = d → denseAt dflt d t p ≠ dflt → p ∈ (content dflt d t).map (·.1) := by
+  intro d
+  induction d with
+  | zero =>
+    intro t p hp hne
+    have hp' : p = [] := List.eq_nil_of_length_eq_zero hp
+    subst hp'
+    have hne' : (show ν from t) ≠ dflt := hne
+    simp [content, hne']
+  | succ d ih =>
+    intro t p hp hne
+    cases p with
+    | nil => simp at hp
+    | cons c q =>
+      rw [denseAt_cons'] at hne
+      cases hl : lookup (show List (κ × Tree κ ν d) from t) c with
+      | none => rw [hl] at hne; exact absurd rfl hne
+      | some u =>
+        rw [hl, optDense_some] at hne
+        have hq : q.length = d := by simpa using hp
+        have hmem := ih u q hq hne
+        obtain ⟨pv, hpv, hpvq⟩ := List.mem_map.1 hmem
+        have hcont : content dflt (d + 1) t =
+            (show List (κ × Tree κ ν d) from t).flatMap
+              (fun e => (content dflt d e.2).map (fun pv => (e.1 :: pv.1, pv.2))) := by
+          rw [content]
+        rw [hcont]
+        refine List.mem_map.2 ⟨(c :: pv.1, pv.2), ?_, by simp [hpvq]⟩
+        exact List.mem_flatMap.2 ⟨(c, u), mem_of_lookup hl, List.mem_map.2 ⟨pv, hpv, rfl⟩⟩
+
+/-- **The executable pointwise check decides the pointwise statement**: checking the stored
+    points of the operands and of the candidate output is enough for all points (of full
+    length), for any expectation that maps two defaults to the default. -/
+theorem pointwiseB_complete (dflt : ν) (d : Nat) (exp : ν → ν → ν) (hexp : exp dflt dflt = dflt)
+    (a b out : Tree κ ν d) (h : pointwiseB dflt d exp a b out = true) (p : List κ) (hp : p.length = d) :
+    denseAt dflt d out p = exp (denseAt dflt d a p) (denseAt dflt d b p) := by
+  unfold pointwiseB at h
+  by_cases hm : p ∈ pointsOf dflt d [a, b, out]
+  · exact of_decide_eq_true (List.all_eq_true.1 h p hm)
+  · have hnot : ∀ t ∈ [a, b, out], denseAt dflt d t p = dflt := by
+      intro t ht
+      apply Classical.byContradiction
+      intro hne
+      apply hm
+      unfold pointsOf
+      exact List.mem_flatMap.2 ⟨t, ht, mem_points_of_dense_ne dflt d t p hp hne⟩
+    rw [hnot a (by simp), hnot b (by simp), hnot out (by simp), hexp]
+
+/-- **Today's `+=` versus `+` with a default that is not a right identity**: on a point only
+    `a` stores, `a += b` keeps `a`'s value while `a + b` adds `b`'s default to it. -/
+theorem today_fiber_iadd_vs_add [Add ν] (dflt : ν) (d : Nat) (a b : Tree κ ν (d + 1))
+    (ha : WF (d + 1) a) (hb : WF (d + 1) b) (p : List κ)
+    (hx : denseAt dflt (d + 1) a p ≠ dflt) (hy : denseAt dflt (d + 1) b p = dflt) :
+    denseAt dflt (d + 1) (iaddT dflt (d + 1) a b) p = denseAt dflt (d + 1) a p ∧
+    denseAt dflt (d + 1) (addT dflt (d + 1) a b) p = denseAt dflt (d + 1) a p + dflt := by
+  rw [fiber_iadd_dense dflt d a b ha hb p, fiber_add_spec dflt d a b ha hb p, hy]
+  simp [iaddExpect, addExpect, hx]
+
+end
+
+/-! ### non-vacuity of Part B: concrete overlapping fibers satisfy every hypothesis -/
+
+def exA0 : Fib Int Int := [(0, 2), (1, 3), (3, 4)]
+def exB0 : Fib Int Int := [(1, 5), (2, 6)]
+def exC0 : Fib Int Int := [(0, 1), (1, 5), (2, 6), (3, -4)]
+theorem exA0_sorted : Sorted exA0 := by unfold Sorted exA0; decide
+theorem exB0_sorted : Sorted exB0 := by unfold Sorted exB0; decide
+theorem exC0_sorted : Sorted exC0 := by unfold Sorted exC0; decide
+def exA : Tree Int Int 1 := leafFiber exA0
+def exB : Tree Int Int 1 := leafFiber exB0
+def exC : Tree Int Int 1 := leafFiber exC0
+theorem exA_WF : WF 1 exA := (WF_succ 0 exA).2 ⟨exA0_sorted, fun _ _ => trivial⟩
+theorem exB_WF : WF 1 exB := (WF_succ 0 exB).2 ⟨exB0_sorted, fun _ _ => trivial⟩
+theorem exC_WF : WF 1 exC := (WF_succ 0 exC).2 ⟨exC0_sorted, fun _ _ => trivial⟩
+/-- a two-level tree with an empty sub-fiber and an explicit default -/
+def exD : Tree Int Int 2 :=
+  show List (Int × Tree Int Int 1) from [(0, exA), (2, leafFiber []), (5, leafFiber [(1, 0), (4, 7)])]
+theorem exD_WF : WF 2 exD := by
+  refine (WF_succ 1 exD).2 ⟨by unfold Sorted exD; decide, ?_⟩
+  intro e he
+  have he' : e = (0, exA) ∨ e = (2, leafFiber []) ∨ e = (5, leafFiber [(1, 0), (4, 7)]) := by
+    simpa [exD] using he
+  rcases he' with rfl | rfl | rfl
+  · exact exA_WF
+  · exact (WF_succ 0 _).2 ⟨List.Pairwise.nil, fun _ h => by cases h⟩
+  · exact (WF_succ 0 _).2 ⟨by unfold Sorted leafFiber; decide, fun _ _ => trivial⟩
+
+example : ∀ p, denseAt (0 : Int) 1 (addT 0 1 exA exB) p =
+    addExpect 0 (denseAt 0 1 exA p) (denseAt 0 1 exB p) := fiber_add_spec 0 0 exA exB exA_WF exB_WF
+example : ∀ p, denseAt (0 : Int) 2 (addT 0 2 exD exD) p =
+    addExpect 0 (denseAt 0 2 exD p) (denseAt 0 2 exD p) := fiber_add_spec 0 1 exD exD exD_WF exD_WF
+example : ∀ p, denseAt (7 : Int) 1 (mulT 7 1 exA exB) p =
+    mulExpect 7 (denseAt 7 1 exA p) (denseAt 7 1 exB p) := fiber_mul_spec 7 0 exA exB exA_WF exB_WF
+example : ∀ p, denseAt (0 : Int) 2 (iaddT 0 2 exD exD) p =
+    iaddExpect 0 (denseAt 0 2 exD p) (denseAt 0 2 exD p) := fiber_iadd_dense 0 1 exD exD exD_WF exD_WF
+example : ∀ p, denseAt (0 : Int) 1 (iaddT 0 1 exA exB) p = denseAt 0 1 (addT 0 1 exA exB) p :=
+  fiber_iadd_eq_add_partial 0 (by intro x; omega) 0 exA exB exA_WF exB_WF
+/-- the coverage hypothesis of the `*=` theorem is satisfiable with a non-trivial intersection … -/
+example : ∀ p, denseAt (0 : Int) 1 (imulT 0 0 exA exC) p = denseAt 0 1 (mulT 0 1 exA exC) p :=
+  fiber_imul_eq_mul_partial 0 0 exA exC exA_WF exC_WF (by decide)
+/-- … and it fails for `exA`, `exB`: coordinate 0 of `exA` survives `exA *= exB` but is not in `exA * exB`. -/
+example : denseAt (0 : Int) 1 (imulT 0 0 exA exB) [0] = 2 ∧ denseAt (0 : Int) 1 (mulT 0 1 exA exB) [0] = 0 := by
+  have h := today_fiber_imul_keeps_unmatched (0 : Int) 0 exA exB exA_WF exB_WF 0 (by decide)
+  constructor
+  · rw [denseAt_cons', h.1]; decide
+  · rw [denseAt_cons', h.2]; rfl
+/-- default 7: `[(1,3)] += []` keeps 3 at coordinate 1, `[(1,3)] + []` gives 3 + 7 -/
+example : denseAt (7 : Int) 1 (iaddT 7 1 (leafFiber [((1 : Int), (3 : Int))]) (leafFiber [])) [1] = 3 ∧
+    denseAt (7 : Int) 1 (addT 7 1 (leafFiber [((1 : Int), (3 : Int))]) (leafFiber [])) [1] = 3 + 7 := by
+  have hw : WF 1 (leafFiber [((1 : Int), (3 : Int))]) :=
+    (WF_succ 0 _).2 ⟨by unfold Sorted leafFiber; decide, fun _ _ => trivial⟩
+  have hn : WF 1 (leafFiber ([] : Fib Int Int)) :=
+    (WF_succ 0 _).2 ⟨List.Pairwise.nil, fun _ h => by cases h⟩
+  exact today_fiber_iadd_vs_add (7 : Int) 0 _ _ hw hn [1] (by decide) (by decide)
+example : ∀ c, denseAt (0 : Int) 1 (leafFiber (saddF 0 5 4 exA0)) [c] =
+    if 0 ≤ c ∧ c < ((4 : Nat) : Int) then 5 + denseAt 0 1 (leafFiber exA0) [c] else 0 :=
+  fiber_scalar_add 0 5 4 exA0
+example : ∀ c, denseAt (0 : Int) 1 (leafFiber (smulF 0 5 exA0)) [c] =
+    if denseAt 0 1 (leafFiber exA0) [c] ≠ 0 then 5 * denseAt 0 1 (leafFiber exA0) [c] else 0 :=
+  fiber_scalar_mul 0 5 exA0 exA0_sorted
+example : ∀ c, denseAt (0 : Int) 1 (leafFiber (isaddF 0 5 4 exA0)) [c] =
+    denseAt 0 1 (leafFiber (saddF 0 5 4 exA0)) [c] :=
+  fiber_scalar_iadd_eq_add_partial 0 5 4 exA0 exA0_sorted (by intro v; omega) (by decide)
+example : ∀ c, denseAt (0 : Int) 1 (leafFiber (ismulF 0 5 exA0)) [c] =
+    denseAt 0 1 (leafFiber (smulF 0 5 exA0)) [c] :=
+  fiber_scalar_imul_eq_mul_partial 0 5 exA0 exA0_sorted (by intro v; exact Int.mul_comm 5 v)
+
 end Ft
